@@ -10,7 +10,7 @@ MODE = "25"
 RULE = ("histories of at/remove/om/rmom on a fresh in-process p2p connection pair, a client on the peer connection listening from "
         "the start: ALL histories of length <= 3 (quick) / <= 4 (thorough; those of length 4 that start with a removal are skipped) over 4 paths (/, /a, /a/b, /x) x {I1 (with a property), "
         "I2, ObjectManager}; all of length <= 2 over 6 paths x 3 interfaces + ObjectManager; random histories of length 20..60 "
-        "(thorough: up to 200) with managers registered early, 60% steered away from the two known-deviation classes, every flagged "
+        "(thorough: up to 200) with managers registered early, 60% steered away from the known-deviation class (nested managers), every flagged "
         "random history also run cut before its first flagged step. After EVERY op: the signals received (sorted), the client's "
         "replayed view and a fresh GetManagedObjects at each of the 6 paths, and their comparison ignoring interface-less paths. "
         "non-trivial = at least one signal was received and at least one manager answered with a non-empty listing")
@@ -80,14 +80,9 @@ def tree_step(t, op):
     above = mgrs_above(t, p)
     flagged = k != "M" and above >= 2
     t[p].discard(k)
-    if not (t[p] & set("123")):
-        if p == ():
-            return flagged
-        sub = [q for q in t if len(q) > len(p) and q[:len(p)] == p]
-        if not flagged and above >= 1 and any(t[q] & set("123") for q in sub):
-            flagged = True
-        for q in sub + [p]:
-            del t[q]
+    has_children = any(len(q) == len(p) + 1 and q[:len(p)] == p for q in t)
+    if not (t[p] & set("123")) and not has_children and p != ():
+        del t[p]          # fix f5fe3276: only an empty leaf below the root is destroyed
     return flagged
 
 
@@ -208,13 +203,15 @@ def search(rng, bad_cases):
 
 ENABLED = True
 LEVEL = "proof"
-LEVEL_TEXT = ("Theorems in coq/theories/Properties/C25.v over ALL histories: in the model of at/remove with their InterfacesAdded / "
-              "InterfacesRemoved emission and of get_managed_objects, a client that replays the signals has, after every step and for "
-              "every manager that answers, exactly the (object, interface, properties) triples of the manager's listing — for every "
-              "history outside two decidable classes; inside each class a concrete history refutes the full statement. The model is "
-              "tied to the code by running every short history and random long ones on the real ObjectServer with a real client on "
-              "the peer connection, comparing signals, replayed views and GetManagedObjects replies after every op.")
-LEVEL_NOTE = ("partial: refuted on this tree for (1) nested managers — only the nearest ancestor manager emits, an outer manager's "
-              "listing still contains the object — and (2) removal that empties a node below a manager while descendants carry "
-              "interfaces — the subtree vanishes from the listing with no InterfacesRemoved. C25_sync_partial covers all other "
-              "histories. Trusted: Coq kernel, the hand-written model, harness hobjsrv (including its Rust replay), sequential histories.")
+LEVEL_TEXT = ("Theorems in coq/theories/Properties/C25.v over ALL histories: in the model of at/remove (as repaired by fix f5fe3276) with "
+              "their InterfacesAdded / InterfacesRemoved emission and of get_managed_objects, a client that replays the signals has, "
+              "after every step and for every manager that answers, exactly the (object, interface, properties) triples of the "
+              "manager's listing — for every history outside ONE decidable class (nested managers); inside it a concrete history "
+              "refutes the full statement. The class repaired by f5fe3276 (silent subtree deletion) is now inside the theorem "
+              "(C25_repaired_history). The model is tied to the code by running every short history and random long ones on the real "
+              "ObjectServer with a real client on the peer connection, comparing signals, replayed views and GetManagedObjects "
+              "replies after every op.")
+LEVEL_NOTE = ("partial: still refuted for nested managers — only the nearest ancestor manager emits, an outer manager's listing still "
+              "contains the object; C25_sync_partial covers all other histories (including removals below a manager, removal and "
+              "re-registration of managers, root removals). Fixed by f5fe3276 and now proved: removal that emptied a node with "
+              "descendants. Trusted: Coq kernel, the hand-written model, harness hobjsrv (including its Rust replay), sequential histories.")
